@@ -1,5 +1,329 @@
-//! Generator-level monitors (filled in below).
-use vutil::Args;
-pub fn c11(_args: &Args) {}
-pub fn c20_determinism(_args: &Args) {}
-pub fn print_tokens(_args: &Args) {}
+//! Generator-level monitors: the real `pest_typed_generator::derive_typed_parser` is called as a
+//! library under `catch_unwind`.
+//!
+//! * C11 (R1/R2): ill-formed grammars must be refused exactly when pest_meta's validator refuses
+//!   them for one of the four stated categories; grammars pest accepts must not make the
+//!   generator panic.
+//! * C20 (R1): the token stream for a grammar and option set must be identical across processes.
+
+use crate::corpus;
+use quote::quote;
+use serde_json::json;
+use std::collections::BTreeMap;
+use std::panic::{catch_unwind, AssertUnwindSafe};
+use std::path::PathBuf;
+use vutil::{Args, Collector, Local, Rng};
+
+/// pest_meta's verdict on a grammar text.
+#[derive(Debug, Clone, PartialEq)]
+enum PestVerdict {
+    SyntaxError,
+    /// validate_pairs (undefined / duplicate rules, keywords): outside C11's four categories
+    OtherError(String),
+    /// validate_ast: the category of the first matching message
+    Rejected(&'static str, String),
+    Accepted,
+}
+
+fn category(msg: &str) -> Option<&'static str> {
+    let m = msg;
+    if m.contains("left-recursive") {
+        Some("left-recursion")
+    } else if m.contains("WHITESPACE") || m.contains("COMMENT") {
+        if m.contains("non-progressing") || m.contains("cannot fail") || m.contains("infinitely") {
+            Some("non-progressing-skip-rule")
+        } else {
+            None
+        }
+    } else if m.contains("inside repetition") || m.contains("repeat infinitely") || m.contains("is non-progressing") || m.contains("non-progressing") {
+        Some("repetition-body-cannot-fail-or-progress")
+    } else if m.contains("cannot be reached") || m.contains("following choices") {
+        Some("unreachable-alternative")
+    } else if m.contains("cannot fail") {
+        Some("repetition-body-cannot-fail-or-progress")
+    } else {
+        None
+    }
+}
+
+fn pest_verdict(text: &str) -> PestVerdict {
+    use pest_meta::parser::{self, Rule};
+    let pairs = match parser::parse(Rule::grammar_rules, text) {
+        Ok(p) => p,
+        Err(_) => return PestVerdict::SyntaxError,
+    };
+    let early = pest_meta::validator::validate_pairs(pairs.clone()).err();
+    match catch_unwind(AssertUnwindSafe(|| parser::consume_rules(pairs))) {
+        Ok(Ok(_)) => match early {
+            Some(es) => PestVerdict::OtherError(es.iter().map(|e| format!("{}", e.variant.message())).collect::<Vec<_>>().join(" | ")),
+            None => PestVerdict::Accepted,
+        },
+        Ok(Err(es)) => {
+            let msgs: Vec<String> = es.iter().map(|e| format!("{}", e.variant.message())).collect();
+            for m in &msgs {
+                if let Some(c) = category(m) {
+                    return PestVerdict::Rejected(c, msgs.join(" | "));
+                }
+            }
+            PestVerdict::OtherError(msgs.join(" | "))
+        }
+        Err(_) => PestVerdict::OtherError("pest_meta panicked".into()),
+    }
+}
+
+/// Run the real generator; Ok(token text) or Err(panic message).
+fn generate(text: &str, attrs: &str) -> Result<String, String> {
+    let attrs: proc_macro2::TokenStream = attrs.parse().unwrap_or_default();
+    let input = quote! {
+        #[grammar_inline = #text]
+        #attrs
+        struct Parser;
+    };
+    catch_unwind(AssertUnwindSafe(|| pest_typed_generator::derive_typed_parser(input, false, true).to_string())).map_err(|e| vutil::panic_text(&*e))
+}
+
+/// Deliberately ill-formed grammars by category, plus well-formed look-alikes.
+fn invalid_family() -> Vec<(String, String)> {
+    let mut v: Vec<(String, String)> = Vec::new();
+    let mut add = |name: &str, g: &str| v.push((name.to_string(), g.to_string()));
+    // direct and indirect left recursion, through optionals, predicates, silent rules, PUSH, repetition
+    let lr_bodies = [
+        ("direct", "a = { a ~ \"x\" }"),
+        ("direct_choice", "a = { \"x\" | a ~ \"y\" }"),
+        ("indirect2", "a = { b ~ \"x\" }\nb = { a ~ \"y\" | \"z\" }"),
+        ("indirect3", "a = { b }\nb = { c ~ \"y\" }\nc = { \"q\"? ~ a }"),
+        ("through_opt", "a = { \"x\"? ~ a ~ \"y\" }"),
+        ("through_rep", "a = { \"x\"* ~ a }"),
+        ("through_pos", "a = { &\"x\" ~ a ~ \"y\" }"),
+        ("through_neg", "a = { !\"x\" ~ a ~ \"y\" }"),
+        ("through_silent", "a = { s ~ \"y\" }\ns = _{ a ~ \"x\" }"),
+        ("through_push", "a = { PUSH(a) ~ \"x\" }"),
+        ("through_push_empty", "a = { PUSH(\"\") ~ a }"),
+        ("through_atomic", "a = @{ b }\nb = ${ a ~ \"x\" }"),
+        ("through_empty_str", "a = { \"\" ~ a }"),
+        ("through_soi", "a = { SOI ~ a ~ \"x\" }"),
+        ("in_rep", "a = { (a ~ \"x\")* }"),
+        ("in_choice_last", "a = { \"x\" ~ \"y\" | \"z\" | a }"),
+        ("mutual_opt", "a = { b? ~ \"x\" }\nb = { a }"),
+        ("nonatomic", "a = !{ a ~ \"x\" }"),
+    ];
+    for (n, g) in lr_bodies {
+        add(&format!("lr_{}", n), g);
+        add(&format!("lr_{}_ws", n), &format!("WHITESPACE = _{{ \" \" }}\n{}", g));
+    }
+    // repetition whose body cannot fail or cannot progress
+    let rep_bodies = [
+        ("opt_star", "a = { (\"x\"?)* }"),
+        ("star_star", "a = { (\"x\"*)* }"),
+        ("star_plus", "a = { (\"x\"*)+ }"),
+        ("empty_star", "a = { \"\"* }"),
+        ("pred_star", "a = { (&\"x\")* }"),
+        ("neg_star", "a = { (!\"x\")* }"),
+        ("soi_star", "a = { SOI* }"),
+        ("rule_opt_star", "a = { b* }\nb = { \"x\"? }"),
+        ("seq_opt_star", "a = { (\"x\"? ~ \"y\"?)* }"),
+        ("choice_empty_star", "a = { (\"x\" | \"\")* }"),
+        ("counted", "a = { (\"x\"?){2,} }"),
+        ("push_empty_star", "a = { PUSH(\"\")* }"),
+        ("eoi_star", "a = { EOI* }"),
+        ("silent_opt_plus", "a = { s+ }\ns = _{ \"x\"* }"),
+        ("atomic_rep", "a = @{ (\"x\"?)* }"),
+    ];
+    for (n, g) in rep_bodies {
+        add(&format!("rep_{}", n), g);
+    }
+    // unreachable alternatives
+    let unreach = [
+        ("opt_first", "a = { \"x\"? | \"y\" }"),
+        ("star_first", "a = { \"x\"* | \"y\" }"),
+        ("empty_first", "a = { \"\" | \"y\" }"),
+        ("rule_first", "a = { b | \"y\" }\nb = { \"x\"? }"),
+        ("neg_any", "a = { !ANY | \"y\" }"),
+        ("nested", "a = { (\"x\" | \"y\"?) | \"z\" }"),
+        ("pred_first", "a = { &\"\" | \"y\" }"),
+        ("mid", "a = { \"x\" | \"y\"* | \"z\" }"),
+    ];
+    for (n, g) in unreach {
+        add(&format!("unreach_{}", n), g);
+    }
+    // non-progressing / non-failing skip rules
+    let skips = [
+        ("ws_opt", "WHITESPACE = _{ \" \"? }\na = { \"x\" ~ \"y\" }"),
+        ("ws_star", "WHITESPACE = _{ \" \"* }\na = { \"x\" ~ \"y\" }"),
+        ("ws_empty", "WHITESPACE = _{ \"\" }\na = { \"x\" ~ \"y\" }"),
+        ("ws_pred", "WHITESPACE = _{ &\" \" }\na = { \"x\" ~ \"y\" }"),
+        ("comment_opt", "COMMENT = _{ \"#\"? }\na = { \"x\" ~ \"y\" }"),
+        ("comment_star", "COMMENT = _{ (\"#\" ~ \"!\")* }\na = { \"x\" ~ \"y\" }"),
+        ("ws_rule_opt", "WHITESPACE = _{ s }\ns = { \" \"? }\na = { \"x\" ~ \"y\" }"),
+        ("ws_soi", "WHITESPACE = _{ SOI }\na = { \"x\" ~ \"y\" }"),
+    ];
+    for (n, g) in skips {
+        add(&format!("skip_{}", n), g);
+    }
+    // well-formed look-alikes (must be accepted and generate)
+    let fine = [
+        ("guarded_rec", "a = { \"x\" ~ a | \"y\" }"),
+        ("opt_last", "a = { \"y\" | \"x\"? }"),
+        ("rep_ok", "a = { (\"x\" ~ \"y\"?)* }"),
+        ("ws_ok", "WHITESPACE = _{ \" \" }\na = { \"x\" ~ \"y\" }"),
+        ("pred_guard", "a = { !\"y\" ~ \"x\" ~ a? }"),
+        ("push_rec", "a = { PUSH(\"x\") ~ a? ~ POP }"),
+    ];
+    for (n, g) in fine {
+        add(&format!("fine_{}", n), g);
+    }
+    v
+}
+
+/// One random textual edit of a grammar (may or may not keep it well-formed).
+fn edit(text: &str, rng: &mut Rng) -> String {
+    let ops: [(&str, &str); 14] = [
+        ("+", "*"),
+        ("+", "?"),
+        ("*", "?"),
+        ("\" ~ ", "\"? ~ "),
+        (" ~ ", " | "),
+        (" | ", " ~ "),
+        ("= {", "= _{"),
+        ("= {", "= @{"),
+        ("(", "(\"\" | "),
+        ("\"a\"", "\"\""),
+        (")*", "?)*"),
+        (")+", "*)+"),
+        ("!", "&"),
+        ("{ ", "{ \"\"? ~ "),
+    ];
+    for _ in 0..8 {
+        let (from, to) = ops[rng.below(ops.len())];
+        let hits: Vec<usize> = text.match_indices(from).map(|(i, _)| i).collect();
+        if hits.is_empty() {
+            continue;
+        }
+        let at = hits[rng.below(hits.len())];
+        return format!("{}{}{}", &text[..at], to, &text[at + from.len()..]);
+    }
+    // reference a rule from itself at the front of its body
+    if let Some(eq) = text.find("= {") {
+        let name: String = text[..eq].lines().last().unwrap_or("").trim().to_string();
+        if !name.is_empty() {
+            return format!("{}= {{ {} ~ {}", &text[..eq], name, &text[eq + 3..]);
+        }
+    }
+    text.to_string()
+}
+
+pub fn c11(args: &Args) {
+    vutil::quiet_panics();
+    let corpus_dir = PathBuf::from(args.str("corpus", "/verif/corpus"));
+    let repo = PathBuf::from(args.str("repo", "/repo"));
+    let thorough = args.thorough();
+    let seed = args.u64("seed", 1);
+    let jobs = vutil::jobs(args);
+    let c = corpus::load(&corpus_dir, &repo, thorough, seed);
+    let mut cases: Vec<(String, String)> = invalid_family();
+    // the corpus itself (valid) and seeded single edits of it
+    let valid: Vec<(String, String)> = c.raw_texts.iter().filter(|(id, _)| !id.starts_with("unicode_") && !id.starts_with("kinds_") && !id.starts_with("slice_")).cloned().collect();
+    for (id, text) in &valid {
+        cases.push((format!("corpus:{}", id), text.clone()));
+    }
+    let mut rng = Rng::new(seed).derive(11);
+    let edits = if thorough { 2500 } else { 500 };
+    for k in 0..edits {
+        let (id, text) = &valid[rng.below(valid.len())];
+        let mut e = edit(text, &mut rng);
+        if rng.chance(1, 3) {
+            e = edit(&e, &mut rng);
+        }
+        cases.push((format!("edit{}:{}", k, id), e));
+    }
+    if thorough {
+        let mut made = 0;
+        while made < 300 {
+            let g = corpus::random_grammar(&mut rng, made % 3 == 0);
+            cases.push((format!("random{}", made), g.clone()));
+            cases.push((format!("random{}e", made), edit(&g, &mut rng)));
+            made += 1;
+        }
+    }
+    let col = Collector::new();
+    vutil::run_workers(jobs, &col, |w, n| {
+        let mut l = Local::new();
+        for (k, (name, text)) in cases.iter().enumerate() {
+            if k % n != w {
+                continue;
+            }
+            l.evaluations += 1;
+            let pv = pest_verdict(text);
+            if pv == PestVerdict::SyntaxError {
+                l.count("skipped_syntax_error");
+                continue;
+            }
+            l.nontrivial += 1;
+            let gen = generate(text, "");
+            let wit = || json!({"name": name, "grammar": text, "pest_meta": format!("{:?}", pv), "generator": match &gen { Ok(_) => "returned code".to_string(), Err(e) => format!("panicked: {}", e.chars().take(300).collect::<String>()) }});
+            match (&pv, &gen) {
+                (PestVerdict::Rejected(cat, _), Ok(_)) => {
+                    l.count(&format!("rejected_by_pest_{}", cat));
+                    l.violation(format!("unclassified/C11/accepted-ill-formed-grammar/{}", cat), format!("pest's validator rejects the grammar ({}) but the generator emits code", cat), wit());
+                }
+                (PestVerdict::Rejected(cat, _), Err(_)) => {
+                    l.count(&format!("rejected_by_pest_{}", cat));
+                    l.count("refused_by_both");
+                }
+                (PestVerdict::Accepted, Err(e)) => {
+                    l.count("accepted_by_pest");
+                    l.violation("unclassified/C11/generator-panics-on-valid-grammar", format!("pest accepts the grammar but the generator panics: {}", e.chars().take(200).collect::<String>()), wit());
+                }
+                (PestVerdict::Accepted, Ok(code)) => {
+                    l.count("accepted_by_pest");
+                    l.count("generated_for_valid");
+                    if code.is_empty() {
+                        l.violation("unclassified/C11/empty-output", "the generator returned no code for a valid grammar", wit());
+                    }
+                }
+                (PestVerdict::OtherError(_), _) => l.count("other_pest_error_outside_the_four_categories"),
+                (PestVerdict::SyntaxError, _) => {}
+            }
+            if k % 41 == 3 {
+                l.sample(json!({"name": name, "grammar": text.chars().take(200).collect::<String>(), "pest_meta": format!("{:?}", pv).chars().take(160).collect::<String>(), "generator_refused": gen.is_err()}));
+            }
+        }
+        l
+    });
+    let doc = col.finish(json!({
+        "rule": "evaluation = one grammar text given to pest_meta (parse, validate_pairs, validate_ast) and to the real derive_typed_parser under catch_unwind; non-trivial = the text is syntactically a grammar; texts: hand-made ill-formed family (4 categories, with well-formed look-alikes), every corpus grammar, seeded single/double edits of corpus grammars (thorough: + random grammars and their edits)",
+    }));
+    vutil::write_out(args, &doc);
+}
+
+pub fn c20_determinism(args: &Args) {
+    vutil::quiet_panics();
+    let corpus_dir = PathBuf::from(args.str("corpus", "/verif/corpus"));
+    let repo = PathBuf::from(args.str("repo", "/repo"));
+    let c = corpus::load(&corpus_dir, &repo, args.thorough(), args.u64("seed", 1));
+    let mut map: BTreeMap<String, String> = BTreeMap::new();
+    let mut variants: Vec<(&str, &str)> = vec![("default", "")];
+    variants.extend(crate::emit::VARIANTS.iter().copied());
+    for (id, text) in &c.raw_texts {
+        for (label, attrs) in &variants {
+            let r = generate(text, attrs);
+            let v = match r {
+                Ok(code) => format!("{}:{:016x}", code.len(), vutil::fnv(code.as_bytes())),
+                Err(e) => format!("panic:{}", e.chars().take(80).collect::<String>()),
+            };
+            map.insert(format!("{}/{}", id, label), v);
+        }
+    }
+    vutil::write_out(args, &json!({"streams": map, "pid": std::process::id()}));
+}
+
+pub fn print_tokens(args: &Args) {
+    let text = std::fs::read_to_string(args.str("grammar", "")).expect("--grammar <file>");
+    match generate(&text, &args.str("attrs", "")) {
+        Ok(code) => println!("{}", code),
+        Err(e) => {
+            eprintln!("generator panicked: {}", e);
+            std::process::exit(3);
+        }
+    }
+}
